@@ -184,6 +184,8 @@ func (s *Sched) initPCT() {
 // Configure changes the scheduling parameters (drawn by the scenario from its
 // own decision stream after the scheduler exists). Call before Run.
 func (s *Sched) Configure(f func(c *Config)) {
+	raceDisable()
+	defer raceEnable()
 	s.mu.Lock()
 	f(&s.cfg)
 	s.hot = map[string]bool{}
@@ -200,6 +202,8 @@ func (s *Sched) Tape(st Stream) *Tape { return s.tapes[st] }
 // Draw draws from a stream of the current run. Safe only from the running
 // managed goroutine (or before Run starts).
 func Draw(st Stream, n int) int {
+	raceDisable()
+	defer raceEnable()
 	s := cur
 	s.mu.Lock()
 	v := s.tapes[st].Draw(n)
@@ -209,6 +213,8 @@ func Draw(st Stream, n int) int {
 
 // Chance draws a num/den coin from a stream of the current run.
 func Chance(st Stream, num, den int) bool {
+	raceDisable()
+	defer raceEnable()
 	s := cur
 	s.mu.Lock()
 	v := s.tapes[st].Chance(num, den)
@@ -218,6 +224,8 @@ func Chance(st Stream, num, den int) bool {
 
 // LibSeed is what the library's own time-seeded RNGs are seeded with.
 func LibSeed() int64 {
+	raceDisable()
+	defer raceEnable()
 	s := cur
 	if s == nil {
 		return 1
@@ -230,6 +238,8 @@ func LibSeed() int64 {
 
 // Elapsed is the simulated time since the run started.
 func Elapsed() time.Duration {
+	raceDisable()
+	defer raceEnable()
 	if cur == nil {
 		return 0
 	}
@@ -237,6 +247,8 @@ func Elapsed() time.Duration {
 }
 
 func (s *Sched) selectHook(n uint32) uint32 {
+	raceDisable()
+	defer raceEnable()
 	// Called by the runtime for every select with n ready-order slots, on the
 	// selecting goroutine. Only the running managed goroutine may consume the
 	// tape; anything else (runtime-internal goroutines inside the bubble) gets
@@ -255,6 +267,8 @@ func (s *Sched) selectHook(n uint32) uint32 {
 }
 
 func (s *Sched) me() *G {
+	raceDisable()
+	defer raceEnable()
 	id := runtimeSimGoid()
 	s.mu.Lock()
 	g := s.byGoid[id]
@@ -264,6 +278,8 @@ func (s *Sched) me() *G {
 
 // Self returns the key of the calling managed goroutine ("" if unmanaged).
 func Self() string {
+	raceDisable()
+	defer raceEnable()
 	if cur == nil {
 		return ""
 	}
@@ -302,14 +318,17 @@ func Go(site string, f func()) {
 		go f()
 		return
 	}
+	raceDisable()
 	parent := s.me()
 	s.mu.Lock()
 	g := s.newG(site, parent)
 	s.mu.Unlock()
-	go s.body(g, f)
+	raceEnable()
+	go s.body(g, f) // the go statement itself stays visible: parent happens-before child
 }
 
 func (s *Sched) body(g *G, f func()) {
+	raceDisable()
 	id := runtimeSimGoid()
 	s.mu.Lock()
 	g.goid = id
@@ -317,7 +336,9 @@ func (s *Sched) body(g *G, f func()) {
 	s.mu.Unlock()
 	s.kickSched()
 	<-g.wake
+	raceEnable()
 	defer func() {
+		raceDisable() // the goroutine ends here
 		if r := recover(); r != nil {
 			s.recordPanic(g, r, debug.Stack())
 			// the run is aborted; this goroutine simply ends
@@ -332,6 +353,8 @@ func (s *Sched) body(g *G, f func()) {
 }
 
 func (s *Sched) recordPanic(g *G, r interface{}, stack []byte) {
+	raceDisable()
+	defer raceEnable()
 	s.mu.Lock()
 	defer s.mu.Unlock()
 	if _, ok := r.(abortSignal); ok {
@@ -347,6 +370,8 @@ func (s *Sched) recordPanic(g *G, r interface{}, stack []byte) {
 type abortSignal struct{}
 
 func (s *Sched) kickSched() {
+	raceDisable()
+	defer raceEnable()
 	select {
 	case s.kick <- struct{}{}:
 	default:
@@ -355,6 +380,8 @@ func (s *Sched) kickSched() {
 
 // park marks g and waits to be released by the scheduler.
 func (s *Sched) park(g *G, st gstate, why string) {
+	raceDisable()
+	defer raceEnable()
 	s.mu.Lock()
 	g.state = st
 	g.why = why
@@ -394,6 +421,8 @@ func Yield(site string) { yield(site, false) }
 func yieldInternal(kind string) { yield(kind, true) }
 
 func yield(site string, internal bool) {
+	raceDisable()
+	defer raceEnable()
 	s := cur
 	if s == nil {
 		return
@@ -466,6 +495,8 @@ func yield(site string, internal bool) {
 }
 
 func (s *Sched) parkForever(g *G) {
+	raceDisable()
+	defer raceEnable()
 	s.mu.Lock()
 	g.state = stBlocked
 	g.why = "aborted"
@@ -478,6 +509,8 @@ func (s *Sched) parkForever(g *G) {
 // (channel operation, select, sleep). A goroutine that did block was woken by
 // somebody else's action and must wait its turn before touching shared state.
 func Resume() {
+	raceDisable()
+	defer raceEnable()
 	s := cur
 	if s == nil {
 		return
@@ -503,6 +536,8 @@ func (s *Sched) block(g *G, why string) {
 }
 
 func (s *Sched) makeRunnable(g *G) {
+	raceDisable()
+	defer raceEnable()
 	s.mu.Lock()
 	if g.state == stBlocked {
 		g.state = stRunnable
@@ -513,6 +548,8 @@ func (s *Sched) makeRunnable(g *G) {
 // AddInstant registers a simulated instant at which something interesting is
 // due (a deadline, a ttl expiry, a sweep tick): targeted stalls jump there.
 func AddInstant(t time.Time) {
+	raceDisable()
+	defer raceEnable()
 	s := cur
 	if s == nil {
 		return
@@ -532,6 +569,8 @@ func (s *Sched) tracef(format string, a ...interface{}) {
 
 // Tracef adds a line to the run's trace (no decisions are drawn, no real clock read).
 func Tracef(format string, a ...interface{}) {
+	raceDisable()
+	defer raceEnable()
 	s := cur
 	if s == nil || (!s.cfg.Trace && s.cfg.TraceTail == 0) {
 		return
@@ -543,6 +582,8 @@ func Tracef(format string, a ...interface{}) {
 
 // TraceLines returns the recorded trace (tail).
 func (s *Sched) TraceLines() []string {
+	raceDisable()
+	defer raceEnable()
 	s.mu.Lock()
 	defer s.mu.Unlock()
 	t := s.trace
@@ -554,6 +595,8 @@ func (s *Sched) TraceLines() []string {
 
 // Abort ends the run: no further goroutine is released.
 func (s *Sched) Abort(why string) {
+	raceDisable()
+	defer raceEnable()
 	s.mu.Lock()
 	if !s.aborted {
 		s.aborted = true
@@ -585,10 +628,14 @@ var stateNames = [...]string{"running", "runnable", "native", "blocked", "done"}
 // returned and every other managed goroutine is done or idle for IdleQuit.
 func (s *Sched) Run(main func()) Outcome {
 	mainDone := false
+	raceDisable()
 	s.mu.Lock()
 	mg := s.newG("h/main", nil)
 	s.mu.Unlock()
-	go s.body(mg, func() { main(); s.mu.Lock(); mainDone = true; s.mu.Unlock() })
+	raceEnable()
+	go s.body(mg, func() { main(); raceDisable(); s.mu.Lock(); mainDone = true; s.mu.Unlock(); raceEnable() })
+	raceDisable()
+	defer raceEnable()
 
 	var out Outcome
 	idle := time.NewTimer(time.Hour)
@@ -721,6 +768,8 @@ func (s *Sched) stallDuration() time.Duration {
 
 // Records returns the recorded decision vectors of this run.
 func (s *Sched) Records() map[string][]uint32 {
+	raceDisable()
+	defer raceEnable()
 	s.mu.Lock()
 	defer s.mu.Unlock()
 	m := map[string][]uint32{}
@@ -732,6 +781,8 @@ func (s *Sched) Records() map[string][]uint32 {
 
 // Diverged sums replay divergences over all streams.
 func (s *Sched) Diverged() int {
+	raceDisable()
+	defer raceEnable()
 	n := 0
 	for i := Stream(0); i < numStreams; i++ {
 		n += s.tapes[i].Diverged
@@ -743,4 +794,10 @@ func (s *Sched) Diverged() int {
 }
 
 // NumGoroutines reports how many managed goroutines were ever started.
-func (s *Sched) NumGoroutines() int { s.mu.Lock(); defer s.mu.Unlock(); return len(s.order) }
+func (s *Sched) NumGoroutines() int {
+	raceDisable()
+	defer raceEnable()
+	s.mu.Lock()
+	defer s.mu.Unlock()
+	return len(s.order)
+}
